@@ -11,6 +11,7 @@ def run(c):
     A.obl_warm(c, ct, thorough=(c.tier == "thorough"), budget_s=1500)
     q = c.tier == "quick"
     obl_phonetic.obl_phonetic_glue(c, 2 if q else 3, budget_s=900)      # carries `memo_entries_survive_the_event`: no key / backspace / commit / finish drops a memo entry, whatever the memo's size
+    A.obl_reload(c, ct, thorough=(c.tier == "thorough"), budget_s=900)       # the user auto-correct list is one of the data files: warm context after a re-load = new context
     c.assume("every proper prefix of the word part that ends in a letter or digit was the word part earlier (typed text only changes at its end) and "
              "no event drops a memo entry (glue clause), so the memo holds the prefixes in a warm and in a fresh context alike")
     c.outside("isolation between two contexts in one process (absence of shared statics in riti and its dependencies is a whole-program "
